@@ -69,5 +69,39 @@ def generated_cases(ctx, n):
     return uniq
 
 
+CRAFTED = [
+    # a statement that writes a table without reading any table still carries column lineage into it; then the table is read
+    ("ansi", "UPDATE t SET a = b; INSERT INTO u SELECT c FROM t"),
+    ("ansi", "INSERT INTO t SELECT sq.x FROM (SELECT 1 AS x) sq; INSERT INTO u SELECT x FROM t"),
+    ("ansi", "INSERT INTO t VALUES (1, 2); INSERT INTO u SELECT * FROM t; INSERT INTO v SELECT * FROM u"),
+    ("ansi", "CREATE TABLE t (a int, b int); INSERT INTO t SELECT a, b FROM s; INSERT INTO u SELECT a FROM t"),
+    ("ansi", "INSERT INTO t1 SELECT sq.x FROM (SELECT x FROM a) sq; INSERT INTO t2 SELECT sq2.x FROM (SELECT x FROM b) sq2; INSERT INTO t3 SELECT t1.x, t2.x AS y FROM t1 JOIN t2 ON t1.x = t2.x"),
+    ("ansi", "INSERT INTO t SELECT * FROM s; INSERT INTO t SELECT * FROM t; INSERT INTO u SELECT * FROM t"),
+    ("ansi", "CREATE VIEW v AS SELECT a.x, b.y FROM a JOIN b ON a.k = b.k; SELECT x FROM v; INSERT INTO w SELECT y FROM v"),
+    ("ansi", "MERGE INTO t USING s ON t.k = s.k WHEN MATCHED THEN UPDATE SET t.a = s.a WHEN NOT MATCHED THEN INSERT (k, a) VALUES (s.k, s.a); INSERT INTO u SELECT a FROM t"),
+    ("ansi", "INSERT INTO t SELECT a FROM s1 UNION ALL SELECT a FROM s2; DROP TABLE s2; INSERT INTO u SELECT a FROM t"),
+    ("sparksql", "INSERT OVERWRITE TABLE t SELECT a FROM s; INSERT INTO TABLE u SELECT a FROM t; INSERT OVERWRITE DIRECTORY 'hdfs://x/y' SELECT a FROM u"),
+    ("postgres", "SELECT a, b INTO t FROM s; UPDATE t SET a = s2.a FROM s2 WHERE s2.k = t.b; INSERT INTO u SELECT a FROM t"),
+]
+
+
+def chain_cases(ctx, n):
+    """multi-statement chains from the C04 generator (real write-then-read scripts, with and without provider)"""
+    from vlib import sqlir as ir
+    from vlib.props import C04
+
+    out = []
+
+    def body(case, res):
+        stmts, needs_provider = C04.build(case)
+        md = {"s.__truthy__": ["x"]} if case[1] else None
+        out.append({"sql": ";\n".join(ir.r_stmt(s) for s in stmts), "dialect": "ansi", "metadata": md, "origin": "gen:c04"})
+        return None
+
+    runner.hyp_run(C04.strategy(), body, runner.Res(), seed=runner.derive_seed(ctx.seed, "poolchain"), max_examples=n, ctx=ctx)
+    return out
+
+
 def all_cases(ctx, n_generated):
-    return corpus_cases(ctx) + generated_cases(ctx, n_generated)
+    crafted = [{"sql": s, "dialect": d, "metadata": None, "origin": "crafted"} for d, s in CRAFTED]
+    return corpus_cases(ctx) + crafted + generated_cases(ctx, n_generated) + chain_cases(ctx, max(20, n_generated // 4))
